@@ -84,7 +84,7 @@ def gen_case(rng):
         i = rng.choice(live)
         r = rng.random()
         if r < 0.4:
-            m = rng.choice([10, 11, 10, 11, 23, 25, 29, 31, 33])
+            m = rng.choice([10, 11, 10, 11, 23, 25, 29, 31, 33, 36])
             evs.append({"base": ("call", i, m, rng.randrange(8))})
             if m in D.CONSUMING:
                 live.remove(i)
